@@ -11,6 +11,9 @@
       num     how the code writes an index: Go [int] on the server, a float64 after JSON
       as_num  [x.(float64)] holding an integral value (merge.uncompressIndices)
       fix4    which diffMap is modelled (see below); not an operation on atoms, but it travels with them
+      keyable the scalar can be the "__key" of an object without making diff.Diff panic: the comparable ones in the
+              tree as it is ([==] on two []byte keys panics, so does using one as a map key); all of them with
+              patches/C03-fix-5 (keys compared by content)
       guide   [None]: the index list of a list diff is computed as diff.computeReorderIndices does.
               [Some g]: where [g old new] proposes an index list of the right length with entries in range, that
               one is used instead ([vchoose]).  The round trip holds for EVERY guide (it only needs each new
@@ -49,6 +52,7 @@ Record atom_ops (A : Type) : Type := mk_atom_ops {
   num : Z -> A;
   as_num : A -> option Z;
   fix4 : bool;
+  keyable : A -> bool;
   guide : option (list (val A) -> list (val A) -> option (list (option nat)))
 }.
 Existing Class atom_ops.
@@ -58,6 +62,7 @@ Arguments cmp {A} {_} _.
 Arguments num {A} {_} _.
 Arguments as_num {A} {_} _.
 Arguments fix4 {A} {_}.
+Arguments keyable {A} {_} _.
 Arguments guide {A} {_}.
 
 Record atom_laws {A : Type} (O : atom_ops A) : Prop := mk_atom_laws {
@@ -543,12 +548,12 @@ Section G.
 
   (** * Well-formedness of inputs.
 
-      [vwf]: object keys unique; a "__key", when present, is nil or a comparable scalar (anything else makes
+      [vwf]: object keys unique; a "__key", when present, is nil or a [keyable] scalar (anything else makes
       diff.Diff panic: Go cannot compare or hash slices and maps).
       [vwf_strict] additionally excludes an explicit nil "__key" (the domain of DiffMerge/Model.v). *)
   Definition key_ok (strict : bool) (l : list (string * val)) : bool :=
     match lookup key_name l with
-    | Some (VAtom a) => cmp a
+    | Some (VAtom a) => keyable a
     | Some VNull => negb strict
     | Some _ => false
     | None => true
